@@ -117,7 +117,8 @@ def run_flow_check(pid, tier, own, closed_cases, real_cases, gen=0, gen_kw=None,
 
 QUICK_CLOSED = [("Z1", dict(n=2)), ("Z2", dict(n=2)), ("Z3", dict(n=2)), ("Z4", dict(n=1)), ("Z5", dict(n=3, m=1)),
                 ("Z6", dict(n=2)), ("Z7", dict(n=2)), ("Z8", dict(n=2)), ("Z9", dict(n=1)), ("Z10", dict(n=3)),
-                ("Z14", dict(n=3)), ("Z15", {}), ("Z16", dict(n=2)), ("Z17", dict(n=3)), ("Z18", dict(n=2)), ("Z19", dict(n=2))]
+                ("Z14", dict(n=3)), ("Z15", {}), ("Z16", dict(n=2)), ("Z17", dict(n=3)), ("Z18", dict(n=2)), ("Z19", dict(n=2)),
+                ("Z5c", dict(n=3, m=1)), ("Z5c", dict(n=2, m=0))]
 THOROUGH_CLOSED = QUICK_CLOSED + [("Z1", dict(n=3)), ("Z1", dict(n=3, buf=2)), ("Z2", dict(n=2, buf=2)), ("Z3", dict(n=2, buf=2, mx=1)),
                                   ("Z4", dict(n=2)), ("Z9", dict(n=2)), ("Z13", dict(n=1)), ("Z5b", dict(n=3, m=1)),
                                   ("Z7", dict(n=2, mx=1)), ("Z10", dict(n=4, buf=2, mx=2)), ("Z6", dict(n=3))]
@@ -146,7 +147,8 @@ def check_C05(tier):
     # the shared upstream emits one result every 50 ms (task i takes i x 50 ms, plenty of slots), so the branch that ends in the
     # sink has results to hand over while the branch of the leaf driver is still being fed
     paced = {"mk:%d.sleep" % i: "%.2f" % (0.05 * i) for i in range(1, 11)}
-    extras = [("Z18", dict(n=10, buf=1, mx=16), dict(ctl=paced)), ("Z18", dict(n=8, buf=2, mx=16), dict(ctl=paced)),
+    extras = [("Z5c", dict(n=3, m=1), dict(ctl={"a.sleep": "0.2"})), ("Z5c", dict(n=4, m=0, buf=2), dict(ctl={"a.sleep": "0.15"})),
+              ("Z18", dict(n=10, buf=1, mx=16), dict(ctl=paced)), ("Z18", dict(n=8, buf=2, mx=16), dict(ctl=paced)),
               ("Z19", dict(n=3), dict(ctl={"a.sleep": "0.1", "b.sleep": "0.1"})), ("Z19", dict(n=4, buf=2)),
               ("Z1", dict(n=3), dict(ctl={"a.extra": "side.log sub/dir/side2.log"})),
               # an extra file that cannot be moved out (a directory of the same name is in the way)
@@ -157,7 +159,7 @@ def check_C05(tier):
         real_cases=REAL + extras, gen=40 if tier == "thorough" else 10, nvar=8 if tier == "thorough" else 4,
         gen_kw=dict(allow_leaf=True),
         weak_cases=[("Z17", dict(n=4), "SpawnAllThenWait", "deadlock"), ("Z9", dict(n=1), "SinkOnlyIfDriver", "C05_NoEarly"),
-                    ("Z1", dict(n=2), "CloseBeforeDrain", "C04/C05")] +
+                    ("Z1", dict(n=2), "CloseBeforeDrain", "C04/C05"), ("Z5c", dict(n=2, m=0), "NoWaitAll", "C05_NoEarly")] +
                    ([("Z5b", dict(n=4, m=1), "NoDrain", "deadlock")] if tier == "thorough" else []),
         rule="as C04; additionally TLC deadlock check and <>(returned or failed) under weak fairness on the small instances; "
              "real runs judged by the in-program snapshot at return, leftovers, commands' own end lines and the Go runtime deadlock report",
